@@ -56,7 +56,13 @@ func (s *Server) laURLHandlerFunc(w http.ResponseWriter, r *http.Request) {
 			http.Error(w, msg, http.StatusInternalServerError)
 			return
 		}
-		key := kidToKey(kid16)
+		key, err := keyFromKid(kid16)
+		if err != nil {
+			msg := "unknown key ID"
+			log.Error(msg, "err", err)
+			http.Error(w, msg, http.StatusBadRequest)
+			return
+		}
 		keyStr := urlSafeBase64(key.PackBase64())
 		kidStr := urlSafeBase64(kid)
 		respData.Keys = append(respData.Keys, CCPKey{
